@@ -328,6 +328,13 @@ func (c *Ctx) gate(sc Sched) string {
 	return ""
 }
 
+// AbortAfterHang ends this worker after a call into pike did not return: its goroutine keeps spinning
+// and cannot be stopped, so nothing measured afterwards would be trustworthy. What was found is reported.
+func (c *Ctx) AbortAfterHang() {
+	c.Emit()
+	os.Exit(0)
+}
+
 // Emit writes the worker output as one JSON line to stdout.
 func (c *Ctx) Emit() {
 	b, _ := json.Marshal(c.Out)
